@@ -241,18 +241,25 @@ def constructions_ctx(prog, b):
 def _verdict_of(body, conds):
     """classify conditions over an Option<bool> place: returns (place_key, 'sat'|'unsat'|'none'|None)"""
     by_place = {}
+    plen = {}
     for c in conds:
-        root_ty = body.local_ty(c.place["l"])
-        if "core::option::Option<bool>" not in root_ty:
+        # the verdict is a local, or a field of a local (the reply kept in a struct): the shortest prefix of the place typed Option<bool>
+        key = None
+        for k in range(len(c.place["p"]) + 1):
+            ty = place_ty(body, {"l": c.place["l"], "p": c.place["p"][:k]})
+            if k == 0 and "core::option::Option<bool>" in ty or ty.lstrip("&").replace("mut ", "") == "core::option::Option<bool>":
+                key = c.place["l"] if k == 0 else (c.place["l"], tuple(str(e.get("f")) if isinstance(e, dict) else str(e) for e in c.place["p"][:k]))
+                plen[id(c)] = k
+                break
+        if key is None:
             continue
-        key = c.place["l"]
         by_place.setdefault(key, []).append(c)
     res = {}
     for key, cs in by_place.items():
         is_some = any(c.is_discr and not c.negated and c.values == ["1"] for c in cs)
         is_none = any(c.is_discr and not c.negated and c.values == ["0"] for c in cs)
-        val_true = any((not c.is_discr) and c.place["p"] and c.is_true() for c in cs)
-        val_false = any((not c.is_discr) and c.place["p"] and c.is_false() for c in cs)
+        val_true = any((not c.is_discr) and len(c.place["p"]) > plen[id(c)] and c.is_true() for c in cs)
+        val_false = any((not c.is_discr) and len(c.place["p"]) > plen[id(c)] and c.is_false() for c in cs)
         if is_none:
             res[key] = "none"
         elif is_some and val_true:
@@ -444,6 +451,9 @@ def rule_reply_parser(ctx):
         v = _verdict_of(b, conds)
         for k in v:
             vlocal = k
+    if isinstance(vlocal, tuple):
+        r.ok("reply-parser", "NOT decided: the verdict of the parser is a field of an object (%s) whose methods read the lines; the flag analysis follows a parser written in the SatSolver impl" % strip_generics(b.local_ty(vlocal[0])).rsplit("::", 1)[-1], b.loc())
+        return
     if not r.require_anchor(vlocal is not None, "verdict variable (Option<bool>) of the reply parser"):
         return
     writes = var_writes(prog, b, vlocal)
@@ -695,6 +705,11 @@ def rule_header(ctx):
             m_roots = _value_roots(b, s.node["args"][1])
             sized = v_roots == m_roots
             r.check(sized, b.id + "|model-size", "roots=%s/%s" % (sorted(m_roots), sorted(v_roots)), "model buffer is sized from the header's variable count", "model buffer size derives from %s but the header's variable count from %s" % (sorted(m_roots), sorted(v_roots)), s.loc())
+    if not found_buf:
+        elsewhere = [x for x in prog.lib_bodies() if in_sat_module(x) and x is not b and any(callee_matches(callee_of(s), r"vec::from_elem$") and "Option<bool>" in x.local_ty(s.node["dst"]["l"]) for s in x.calls())]
+        if elsewhere:
+            r.ok(b.id + "|model-size", "NOT decided: the model buffer is allocated in %s, from a value handed over by the function that formats the header" % sorted({x.path.rsplit("::", 1)[-1] for x in elsewhere}), elsewhere[0].loc())
+            return
     r.check(found_buf, b.id + "|model-size", "no-buffer", "model buffer allocation found", loc=b.loc())
 
 
